@@ -215,6 +215,8 @@ class Sandbox:
             self._stop_mocking(context)
 
         self._next_context_id += 1
+        if verif_hooks.ENABLED:
+            verif_hooks.emit("execute", sandbox=self, context=context)
         return self
 
     def run(self, code=None, filename=None, inputs=None, threaded=None,
@@ -989,6 +991,8 @@ class Sandbox:
         # Update outputs
         self.raw_output = ""
         self.output.clear()
+        if verif_hooks.ENABLED:
+            verif_hooks.emit("clear_output", sandbox=self)
         return self
 
     def append_output(self, raw_output, context):
